@@ -65,6 +65,21 @@ fn random_lists(ctx: &mut Ctx) {
             e.use_tags(&tags);
             let mut scan = Scan::new(&rules, ParseOptions::default());
             let mut out: Vec<CaseEvent> = vec![];
+            // the same list added one rule at a time to a live Blocker (not possible with
+            // $badfilter rules, which add_filter refuses)
+            let live = if rules.iter().any(|l| l.contains("badfilter")) {
+                None
+            } else {
+                let mut b = adblock::blocker::Blocker::new(vec![], &adblock::blocker::BlockerOptions { enable_optimizations: false });
+                for line in &rules {
+                    let (mut nf, _) = adblock::lists::parse_filters([line], debug, ParseOptions::default());
+                    if let Some(f) = nf.pop() {
+                        let _ = b.add_filter(f);
+                    }
+                }
+                b.use_tags(&tags);
+                Some((b, adblock::resources::ResourceStorage::from_resources(resdefs.iter().map(|d| d.to_resource()))))
+            };
             if !optimize {
                 for msg in structure_violations(&e, &scan, &tagset) {
                     out.push(CaseEvent::Structure(msg, rules.clone(), tags.clone()));
@@ -73,6 +88,33 @@ fn random_lists(ctx: &mut Ctx) {
             for _ in 0..12 {
                 let q = gen_request(&mut r, &rules);
                 if let Some((d, a, v)) = compare(&e, &mut scan, &res, &tagset, &q) {
+                    if let (Some((b, storage)), Ok(rq)) = (&live, Request::new(&q.url, &q.source, q.rtype)) {
+                        let a2 = crate::mon::c05::blocker_answer(b, storage, &rq);
+                        let d2 = diff(&a2, &v);
+                        if !d2.is_empty() && d.is_empty() {
+                            out.push(CaseEvent::Mismatch {
+                                fields: format!("incremental:{}", d2.join("+")),
+                                detail: json!({"rules_added_one_at_a_time": rules, "tags": tags, "url": q.url, "source": q.source, "type": q.rtype,
+                                    "blocker": a2.to_json(), "oracle": verdict_json(&v)}),
+                            });
+                        }
+                    }
+                    // the multi-engine entry point under the other three flag combinations
+                    if let Ok(rq) = Request::new(&q.url, &q.source, q.rtype) {
+                        for (prev, force) in [(true, false), (true, true), (false, true)] {
+                            let s = e.check_network_request_subset(&rq, prev, force);
+                            let want = v.with_flags(prev, force, rq.is_supported);
+                            if (s.matched, s.important, s.exception.is_some()) != want && d.is_empty() {
+                                out.push(CaseEvent::Mismatch {
+                                    fields: "subset-entry-point".into(),
+                                    detail: json!({"rules": rules, "tags": tags, "url": q.url, "source": q.source, "type": q.rtype, "optimize": optimize,
+                                        "previously_matched_rule": prev, "force_check_exceptions": force,
+                                        "engine": {"matched": s.matched, "important": s.important, "exception": s.exception},
+                                        "reference": {"matched": want.0, "important": want.1, "exception": want.2}}),
+                                });
+                            }
+                        }
+                    }
                     let nt = v.hits > 0 || v.csp.is_some();
                     let h = fnv(&format!("{:?}|{:?}|{}|{}|{}", rules, tags, q.url, q.source, q.rtype));
                     if d.is_empty() {
